@@ -196,7 +196,7 @@ func modelSnapshot(env *Env, ops []*OpRec, ci *closeInfo, at int) *snapModel {
 				} else {
 					e.HasHV, e.HV = true, map[uint64]int64{}
 					for _, u := range t.UF {
-						e.HV[f64bits(u)] += 0
+						e.HV[f64bits(u+0)] += 0
 					}
 				}
 			}
@@ -222,7 +222,7 @@ func modelSnapshot(env *Env, ops []*OpRec, ci *closeInfo, at int) *snapModel {
 			t := TilingOf(first, env.Prog.Cfg.DefBuckets)
 			if r.Op.K == "recv" && !t.Dur {
 				if i := t.IndexF(f64from(r.Op.F)); i >= 0 {
-					e.HV[f64bits(t.UF[i])]++
+					e.HV[f64bits(t.UF[i]+0)]++
 				} else {
 					m.ambig[k] = true
 				}
